@@ -626,7 +626,7 @@ func bombCases(thorough bool) []hostileCase {
 		return hostileCase{Bomb: &bombDesc{Kind: kind, N: n}, Tags: []string{"bomb", "bomb:" + kind}}
 	}
 	cs := []hostileCase{mk("nest-sel", 2000), mk("nest-ext", 100000), mk("nest-sel", 3000000), mk("alloc", 0), mk("alloc", 4),
-		mk("big-frame", 1<<20), mk("big-frame", network.MessageSizeMax+1), mk("len", 0), mk("len", 1), mk("len", 2), mk("len", 3)}
+		mk("big-frame", 1<<18), mk("big-frame", network.MessageSizeMax+1), mk("len", 0), mk("len", 1), mk("len", 2), mk("len", 3)}
 	if thorough {
 		cs = append(cs, mk("nest-ext", 3000000), mk("nest-meta", 100000), mk("nest-sel", 1019), mk("nest-sel", 1021), mk("big-frame", network.MessageSizeMax-1), mk("big-frame", network.MessageSizeMax), mk("len", 4), mk("len", 5))
 		for i := 1; i < 10; i++ {
